@@ -213,6 +213,7 @@ Qed.
 Lemma Neqb_ok (a b : N) : N.eqb a b = true <-> a = b.
 Proof. apply N.eqb_eq. Qed.
 
+
 (* ------------------------------------------------------------------------------------------- *)
 (* Part 2: the core invariant                                                                    *)
 (* ------------------------------------------------------------------------------------------- *)
@@ -243,14 +244,17 @@ Definition msg_ids (x : f2b) : list id :=
 Definition msg_ranges (x : f2b) : list (N * N) :=
   match x with MBatch lo hi _ _ => [(lo, hi)] | _ => [] end.
 Definition msg_ok (x : f2b) : Prop := match x with MRequest _ None _ => False | _ => True end.
-Definition unsub_of (k : kind) : option id :=
-  match k with KCall _ => None | KPendSub u _ _ => Some u | KSub u _ _ => Some u end.
+(* the other id a table entry refers to: the reserved unsubscribe id of a (pending) subscription,
+   the kept subscribe id (tombstone) of a pending unsubscribe *)
+Definition refs (k : kind) : option id :=
+  match k with KCall _ => None | KPendSub u _ _ => Some u | KSub u _ _ => Some u | KUnsubP j => Some j end.
 
 Definition qids (Q : list f2b) : list id := flat_map msg_ids Q.
 Definition qrngs (Q : list f2b) : list (N * N) := flat_map msg_ranges Q.
 Definition ids_of (R : list (id * kind)) (Q : list f2b) : list id := map fst R ++ qids Q.
 Definition rngs_of (B : list ((N * N) * handle)) (Q : list f2b) : list (N * N) := map fst B ++ qrngs Q.
 Definition rdisj (r1 r2 : N * N) : Prop := snd r1 <= fst r2 \/ snd r2 <= fst r1.
+Definition off_rngs (rs : list (N * N)) (i : id) : Prop := forall r, In r rs -> id_n i < fst r \/ snd r <= id_n i.
 
 (* id discipline: R = requests, B = batches, Q = queued messages (queue ++ waiting), nx = id counter *)
 Record IdsC (R : list (id * kind)) (B : list ((N * N) * handle)) (Q : list f2b) (nx : N) (b : bool) : Prop := {
@@ -259,33 +263,41 @@ Record IdsC (R : list (id * kind)) (B : list ((N * N) * handle)) (Q : list f2b) 
   ic_nd_rng : NoDup (rngs_of B Q);
   ic_rng_ok : forall r, In r (rngs_of B Q) -> fst r < snd r /\ snd r <= nx;
   ic_rng_disj : forall r1 r2, In r1 (rngs_of B Q) -> In r2 (rngs_of B Q) -> r1 = r2 \/ rdisj r1 r2;
-  ic_id_rng : forall i r, In i (ids_of R Q) -> In r (rngs_of B Q) -> id_n i < fst r \/ snd r <= id_n i;
+  ic_id_rng : forall i, In i (ids_of R Q) -> off_rngs (rngs_of B Q) i;
   ic_qok : forall x, In x Q -> msg_ok x
 }.
 
 (* table shape: S = subs, ua = unacked *)
-Record TabC (R : list (id * kind)) (S : list (subid * id)) (Q : list f2b) (nx : N) (b : bool) (ua : list id) : Prop := {
+Record TabC (R : list (id * kind)) (S : list (subid * id)) (B : list ((N * N) * handle)) (Q : list f2b)
+            (nx : N) (b : bool) (ua : list id) : Prop := {
   tc_nd_subs : NoDup (map fst S);
   tc_nd_subv : NoDup (map snd S);
   tc_subs_a : forall sid i, In (sid, i) S -> exists u ch um, In (i, KSub u ch um) R;
   tc_subs_b : forall i u ch um, In (i, KSub u ch um) R -> exists sid, In (sid, i) S;
-  tc_res : forall i k u, In (i, k) R -> unsub_of k = Some u ->
-             idlt b nx u /\ ~ In u (qids Q) /\ (forall k', In (u, k') R -> k' = KCall None);
-  tc_none : forall u, In (u, KCall None) R -> (exists i k, In (i, k) R /\ unsub_of k = Some u) \/ In u ua
+  tc_res : forall i k u, In (i, k) R -> refs k = Some u ->
+             idlt b nx u /\ ~ In u (qids Q) /\ off_rngs (rngs_of B Q) u /\ (forall k', In (u, k') R -> k' = KCall None);
+  tc_uniq : forall i1 k1 i2 k2 u, In (i1, k1) R -> In (i2, k2) R -> refs k1 = Some u -> refs k2 = Some u -> i1 = i2;
+  tc_none : forall j, In (j, KCall None) R -> exists i k, In (i, k) R /\ refs k = Some j;
+  tc_unsubp : forall u j, In (u, KUnsubP j) R -> In u ua;
+  tc_unacked : forall u, In u ua -> exists j, In (u, KUnsubP j) R
 }.
 
 Definition InvC (M : mgr) (Q : list f2b) (nx : N) (b : bool) (ua : list id) : Prop :=
-  IdsC (requests M) (batches M) Q nx b /\ TabC (requests M) (subs M) Q nx b ua /\ NoDup (map fst (nhandlers M)).
+  IdsC (requests M) (batches M) Q nx b /\ TabC (requests M) (subs M) (batches M) Q nx b ua /\ NoDup (map fst (nhandlers M)).
 
 Lemma IdsC_nd_keys R B Q nx b : IdsC R B Q nx b -> NoDup (map fst R).
 Proof. intros H. apply (ic_nd_ids _ _ _ _ _) in H. apply nodup_app in H. tauto. Qed.
 Lemma IdsC_nd_bkeys R B Q nx b : IdsC R B Q nx b -> NoDup (map fst B).
 Proof. intros H. apply (ic_nd_rng _ _ _ _ _) in H. apply nodup_app in H. tauto. Qed.
+Lemma IdsC_key_notq R B Q nx b i : IdsC R B Q nx b -> In i (map fst R) -> ~ In i (qids Q).
+Proof. intros H. apply (ic_nd_ids _ _ _ _ _) in H. apply nodup_app in H. destruct H as (_ & _ & H). apply H. Qed.
 
 Lemma InvC_init b : InvC empty_mgr [] 0 b [].
 Proof.
   split; [|split]; [constructor | constructor |]; cbn; try constructor; intros; try contradiction; tauto.
 Qed.
+
+Ltac inv H := inversion H; subst; clear H.
 
 (* generic shrinking of the id discipline *)
 Lemma IdsC_shrink R B Q nx b R' B' Q' :
@@ -296,6 +308,24 @@ Lemma IdsC_shrink R B Q nx b R' B' Q' :
   IdsC R' B' Q' nx b.
 Proof.
   intros [h1 h2 h3 h4 h5 h6 h7] N1 I1 N2 I2 K. constructor; auto.
+  intros i Hi r Hr. apply (h6 i); auto.
+Qed.
+
+(* the key set of requests changes, queue and batches stay *)
+Lemma IdsC_rekey R B Q nx b R' :
+  IdsC R B Q nx b -> NoDup (map fst R') ->
+  (forall i, In i (map fst R') -> In i (map fst R) \/ (idlt b nx i /\ ~ In i (qids Q) /\ off_rngs (rngs_of B Q) i)) ->
+  IdsC R' B Q nx b.
+Proof.
+  intros H N1 I1. pose proof H as [h1 h2 h3 h4 h5 h6 h7]. constructor; auto; unfold ids_of in *.
+  - apply nodup_app. apply nodup_app in h1 as (a & c & d). repeat split; auto.
+    intros x Hx. apply I1 in Hx as [Hx | (_ & Hx & _)]; auto.
+  - intros i Hi. apply in_app_iff in Hi as [Hi | Hi].
+    + apply I1 in Hi as [Hi | (Hi & _)]; auto. apply h2. apply in_app_iff; auto.
+    + apply h2. apply in_app_iff; auto.
+  - intros i Hi. apply in_app_iff in Hi as [Hi | Hi].
+    + apply I1 in Hi as [Hi | (_ & _ & Hi)]; auto. apply h6. apply in_app_iff; auto.
+    + apply h6. apply in_app_iff; auto.
 Qed.
 
 Lemma IdsC_mono R B Q nx nx' b : nx <= nx' -> IdsC R B Q nx b -> IdsC R B Q nx' b.
@@ -304,8 +334,6 @@ Proof.
   - intros i Hi. eapply idlt_mono; eauto.
   - intros r Hr. apply h4 in Hr. lia.
 Qed.
-
-Ltac inv H := inversion H; subst; clear H.
 
 Lemma nodup_middle {A} (x : A) l1 l2 : NoDup (l1 ++ x :: l2) <-> NoDup (x :: l1 ++ l2).
 Proof.
@@ -329,17 +357,22 @@ Proof.
   - intros x Hx. apply (ic_qok _ _ _ _ _ H). eapply Permutation_in; [|exact Hx]. symmetry; auto.
 Qed.
 
-Lemma TabC_q R S Q Q' nx b ua : (forall i, In i (qids Q') -> In i (qids Q)) -> TabC R S Q nx b ua -> TabC R S Q' nx b ua.
+Lemma TabC_q R S B B' Q Q' nx b ua :
+  (forall i, In i (qids Q') -> In i (qids Q)) -> (forall r, In r (rngs_of B' Q') -> In r (rngs_of B Q)) ->
+  TabC R S B Q nx b ua -> TabC R S B' Q' nx b ua.
 Proof.
-  intros I [h1 h2 h3 h4 h5 h6]. constructor; auto.
-  intros i k u Hi Hu. destruct (h5 i k u Hi Hu) as (a & c & d). repeat split; auto.
+  intros I J [h1 h2 h3 h4 h5 h6 h7 h8 h9]. constructor; auto.
+  intros i k u Hi Hu. destruct (h5 i k u Hi Hu) as (a & c & d & e). repeat split; auto.
+  intros r Hr. apply d; auto.
 Qed.
 
 Lemma InvC_perm M Q Q' nx b ua : Permutation Q Q' -> InvC M Q nx b ua -> InvC M Q' nx b ua.
 Proof.
   intros P (H1 & H2 & H3). split; [|split]; auto.
   - eapply IdsC_perm; eauto.
-  - eapply TabC_q; [|eauto]. intros i Hi. eapply Permutation_in; [|exact Hi]. apply qids_perm. symmetry; auto.
+  - eapply TabC_q; [| |eauto].
+    + intros i Hi. eapply Permutation_in; [|exact Hi]. apply qids_perm. symmetry; auto.
+    + intros i Hi. eapply Permutation_in; [|exact Hi]. apply Permutation_app_head, qrngs_perm. symmetry; auto.
 Qed.
 
 (* dropping a queued message *)
@@ -356,7 +389,9 @@ Proof.
       apply nodup_app. repeat split; auto. intros y Hy Hq. apply (N3 y Hy). apply in_app_iff; auto.
     + unfold rngs_of, qrngs. cbn [flat_map]. intros i. rewrite !in_app_iff. tauto.
     + intros y Hy. apply (ic_qok _ _ _ _ _ H1). right; auto.
-  - eapply TabC_q; [|eauto]. unfold qids. cbn [flat_map]. intros i. rewrite in_app_iff. tauto.
+  - eapply TabC_q; [| |eauto].
+    + unfold qids. cbn [flat_map]. intros i. rewrite in_app_iff. tauto.
+    + unfold rngs_of, qrngs. cbn [flat_map]. intros i. rewrite !in_app_iff. tauto.
 Qed.
 
 Lemma InvC_drop M Q1 x Q2 nx b ua : InvC M (Q1 ++ x :: Q2) nx b ua -> InvC M (Q1 ++ Q2) nx b ua.
@@ -382,25 +417,31 @@ Proof.
     + apply (ic_nd_ids _ _ _ _ _ H1).
     + apply (ic_nd_rng _ _ _ _ _ H1).
     + intros y [<- | Hy]; auto. apply (ic_qok _ _ _ _ _ H1); auto.
-  - eapply TabC_q; [|eauto]. unfold qids. cbn [flat_map]. rewrite E1. auto.
+  - eapply TabC_q; [| |eauto]; unfold rngs_of, qids, qrngs; cbn [flat_map]; rewrite ?E1, ?E2; auto.
 Qed.
 
 Lemma InvC_mono M Q nx nx' b ua : nx <= nx' -> InvC M Q nx b ua -> InvC M Q nx' b ua.
 Proof.
   intros L (H1 & H2 & H3). split; [|split]; auto.
   - eapply IdsC_mono; eauto.
-  - destruct H2 as [h1 h2 h3 h4 h5 h6]. constructor; auto.
-    intros i k u Hi Hu. destruct (h5 i k u Hi Hu) as (a & c & d). repeat split; auto. eapply idlt_mono; eauto.
+  - destruct H2 as [h1 h2 h3 h4 h5 h6 h7 h8 h9]. constructor; auto.
+    intros i k u Hi Hu. destruct (h5 i k u Hi Hu) as (a & c & d & e). repeat split; auto. eapply idlt_mono; eauto.
 Qed.
 
-Lemma TabC_enq R S Q x nx nx' b ua : nx <= nx' -> (forall i, In i (msg_ids x) -> idge b nx i) ->
-  TabC R S Q nx b ua -> TabC R S (x :: Q) nx' b ua.
+Lemma TabC_enq R S B Q x nx nx' b ua : nx <= nx' -> (forall i, In i (msg_ids x) -> idge b nx i) ->
+  (forall r, In r (msg_ranges x) -> nx <= fst r) ->
+  TabC R S B Q nx b ua -> TabC R S B (x :: Q) nx' b ua.
 Proof.
-  intros L G [h1 h2 h3 h4 h5 h6]. constructor; auto.
-  intros i k u Hi Hu. destruct (h5 i k u Hi Hu) as (a & c & d). repeat split; auto.
+  intros L G G2 [h1 h2 h3 h4 h5 h6 h7 h8 h9]. constructor; auto.
+  intros i k u Hi Hu. destruct (h5 i k u Hi Hu) as (a & c & d & e). repeat split; auto.
   - eapply idlt_mono; eauto.
   - unfold qids. cbn [flat_map]. rewrite in_app_iff. intros [Hx | Hx]; auto.
     eapply idlt_ge_False; eauto.
+  - intros r Hr. unfold rngs_of, qrngs in Hr. cbn [flat_map] in Hr. rewrite !in_app_iff in Hr.
+    destruct Hr as [Hr | [Hr | Hr]].
+    + apply d. apply in_app_iff; auto.
+    + left. apply G2 in Hr. apply idlt_id_n in a. lia.
+    + apply d. apply in_app_iff; auto.
 Qed.
 
 Lemma InvC_enq_req M Q nx b ua h raw : InvC M Q nx b ua ->
@@ -417,12 +458,14 @@ Proof.
       * exists nx; split; auto; lia.
       * eapply idlt_mono; [|apply h2; apply in_app_iff; auto]. lia.
     + intros r Hr. apply h4 in Hr. lia.
-    + intros i r Hi Hr. apply in_app_iff in Hi as [Hi | [<- | Hi]].
-      * apply h6; auto. apply in_app_iff; auto.
+    + intros i Hi r Hr. apply in_app_iff in Hi as [Hi | [<- | Hi]].
+      * apply (h6 i); auto. apply in_app_iff; auto.
       * rewrite id_n_mkid. apply h4 in Hr. lia.
-      * apply h6; auto. apply in_app_iff; auto.
+      * apply (h6 i); auto. apply in_app_iff; auto.
     + intros x [<- | Hx]; cbn; auto.
-  - eapply TabC_enq; [| |eauto]; [lia|]. cbn. intros i [<- | []]. exists nx; split; auto; lia.
+  - eapply TabC_enq; [| | |eauto]; [lia| |]; cbn.
+    + intros i [<- | []]. exists nx; split; auto; lia.
+    + intros r [].
 Qed.
 
 Lemma InvC_enq_sub M Q nx b ua um h raw : InvC M Q nx b ua ->
@@ -445,15 +488,17 @@ Proof.
       * exists (nx + 1); split; auto; lia.
       * eapply idlt_mono; [|apply h2; apply in_app_iff; auto]. lia.
     + intros r Hr. apply h4 in Hr. lia.
-    + intros i r Hi Hr. apply in_app_iff in Hi as [Hi | [<- | [<- | Hi]]].
-      * apply h6; auto. apply in_app_iff; auto.
+    + intros i Hi r Hr. apply in_app_iff in Hi as [Hi | [<- | [<- | Hi]]].
+      * apply (h6 i); auto. apply in_app_iff; auto.
       * rewrite id_n_mkid. apply h4 in Hr. lia.
       * rewrite id_n_mkid. apply h4 in Hr. lia.
-      * apply h6; auto. apply in_app_iff; auto.
+      * apply (h6 i); auto. apply in_app_iff; auto.
     + intros x [<- | Hx]; cbn; auto.
-  - eapply TabC_enq; [| |eauto]; [lia|]. cbn. intros i [<- | [<- | []]].
-    + exists nx; split; auto; lia.
-    + exists (nx + 1); split; auto; lia.
+  - eapply TabC_enq; [| | |eauto]; [lia| |]; cbn.
+    + intros i [<- | [<- | []]].
+      * exists nx; split; auto; lia.
+      * exists (nx + 1); split; auto; lia.
+    + intros r [].
 Qed.
 
 Lemma InvC_enq_batch M Q nx len b ua h raw : 0 < len -> InvC M Q nx b ua ->
@@ -477,12 +522,267 @@ Proof.
                    r = (nx, nx + len) \/ In r (map fst (batches M) ++ flat_map msg_ranges Q)).
       { intros r Hr. rewrite in_app_iff in *. cbn [In] in Hr. intuition auto. }
       apply O in Hr1 as [-> | Hr1]; apply O in Hr2 as [-> | Hr2]; auto.
-      * right. left. cbn. apply h4 in Hr2. lia.
-      * right. right. cbn. apply h4 in Hr1. lia.
-    + intros i r Hi Hr. apply in_app_iff in Hr as [Hr | [<- | Hr]].
-      * apply h6; auto. apply in_app_iff; auto.
+      * right. right. cbn. apply h4 in Hr2. lia.
+      * right. left. cbn. apply h4 in Hr1. lia.
+    + intros i Hi r Hr. apply in_app_iff in Hr as [Hr | [<- | Hr]].
+      * apply (h6 i); auto. apply in_app_iff; auto.
       * cbn. left. apply idlt_id_n with (b := b). auto.
-      * apply h6; auto. apply in_app_iff; auto.
+      * apply (h6 i); auto. apply in_app_iff; auto.
     + intros x [<- | Hx]; cbn; auto.
-  - eapply TabC_enq; [| |eauto]; [lia|]. cbn. intros i [].
+  - eapply TabC_enq; [| | |eauto]; [lia| |]; cbn.
+    + intros i [].
+    + intros r [<- | []]. cbn. lia.
+Qed.
+
+(* ---------- the send task takes a message off the queue ---------- *)
+Lemma In_aset {K V} (eqb : K -> K -> bool) (eqb_ok : forall a b, eqb a b = true <-> a = b) i v (l : list (K * V)) j k :
+  In (j, k) (aset eqb i v l) <-> (j = i /\ k = v) \/ (In (j, k) l /\ j <> i).
+Proof.
+  unfold aset. cbn [In]. rewrite (In_aremove eqb eqb_ok). split.
+  - intros [E | H]; [inv E|]; auto.
+  - intros [(-> & ->) | H]; auto.
+Qed.
+
+Lemma InvC_front_req M Q nx b ua i w raw : InvC M (MRequest i w raw :: Q) nx b ua ->
+  ~ In i (map fst (requests M)) /\ InvC (set_requests M ((i, KCall w) :: requests M)) Q nx b ua.
+Proof.
+  intros (H1 & H2 & H3).
+  pose proof (ic_nd_ids _ _ _ _ _ H1) as N. unfold ids_of, qids in N. cbn [flat_map msg_ids app] in N.
+  apply nodup_middle in N. apply NoDup_cons_iff in N as (N1 & N2). rewrite in_app_iff in N1.
+  split; [tauto|]. split; [|split]; auto; cbn [requests set_requests subs batches].
+  - eapply IdsC_shrink; eauto; unfold ids_of, rngs_of, qids, qrngs; cbn [flat_map msg_ids msg_ranges app map fst].
+    + constructor; auto. rewrite in_app_iff. tauto.
+    + intros j. cbn [In]. rewrite !in_app_iff. cbn [In]. tauto.
+    + apply (ic_nd_rng _ _ _ _ _ H1).
+    + auto.
+    + intros y Hy. apply (ic_qok _ _ _ _ _ H1). right; auto.
+  - assert (W : w <> None).
+    { pose proof (ic_qok _ _ _ _ _ H1 _ (or_introl eq_refl)) as K. cbn in K. destruct w; auto; discriminate. }
+    destruct H2 as [h1 h2 h3 h4 h5 h6 h7 h8 h9].
+    assert (NR : forall j k u, In (j, k) (requests M) -> refs k = Some u -> u <> i).
+    { intros j k u Hj Hu ->. destruct (h5 j k i Hj Hu) as (_ & c & _). apply c. unfold qids. cbn. auto. }
+    constructor; auto.
+    + intros sid j Hs. destruct (h3 sid j Hs) as (u & ch & um & Hu). exists u, ch, um. right; auto.
+    + intros j u ch um [E | Hj]; [inv E|]. eauto.
+    + intros j k u [E | Hj] Hu; [inv E; discriminate|].
+      destruct (h5 j k u Hj Hu) as (a & c & d & e). repeat split; auto.
+      * intros Hq. apply c. unfold qids. cbn [flat_map]. apply in_app_iff; auto.
+      * intros k' [E | Hk]; [inv E|]; auto. exfalso. eapply NR; eauto.
+    + intros i1 k1 i2 k2 u [E1 | I1] [E2 | I2] R1 R2; try (inv E1; discriminate); try (inv E2; discriminate). eauto.
+    + intros j [E | Hj]; [inv E; congruence|]. destruct (h7 j Hj) as (i2 & k2 & Hi2 & Hr). exists i2, k2. split; auto. right; auto.
+    + intros u j [E | Hj]; [inv E|]. eauto.
+    + intros u Hu. destruct (h9 u Hu) as (j & Hj). exists j. right; auto.
+Qed.
+
+Lemma InvC_front_sub M Q nx b ua si ui um h raw : InvC M (MSubscribe si ui um h raw :: Q) nx b ua ->
+  ~ In si (map fst (requests M)) /\ ~ In ui (map fst (requests M)) /\ si <> ui /\
+  InvC (set_requests M ((ui, KCall None) :: (si, KPendSub ui h um) :: requests M)) Q nx b ua.
+Proof.
+  intros (H1 & H2 & H3).
+  pose proof (ic_nd_ids _ _ _ _ _ H1) as N. unfold ids_of, qids in N. cbn [flat_map msg_ids app] in N.
+  apply nodup_middle in N. apply NoDup_cons_iff in N as (N1 & N2).
+  apply nodup_middle in N2. apply NoDup_cons_iff in N2 as (N3 & N4).
+  cbn [In] in N1. rewrite in_app_iff in N1, N3. cbn [In] in N1.
+  assert (D : si <> ui) by (intros ->; tauto).
+  split; [tauto|]. split; [tauto|]. split; auto.
+  split; [|split]; auto; cbn [requests set_requests subs batches].
+  - eapply IdsC_shrink; eauto; unfold ids_of, rngs_of, qids, qrngs; cbn [flat_map msg_ids msg_ranges app map fst].
+    + constructor; [|constructor]; auto.
+      * cbn [In]. rewrite in_app_iff. intros [E | Hx]; [congruence | tauto].
+      * rewrite in_app_iff. tauto.
+    + intros j. cbn [In]. rewrite !in_app_iff. cbn [In]. tauto.
+    + apply (ic_nd_rng _ _ _ _ _ H1).
+    + auto.
+    + intros y Hy. apply (ic_qok _ _ _ _ _ H1). right; auto.
+  - pose proof (ic_lt_ids _ _ _ _ _ H1) as LT. pose proof (ic_id_rng _ _ _ _ _ H1) as OR.
+    unfold ids_of, rngs_of, qids, qrngs in LT, OR. cbn [flat_map msg_ids msg_ranges app] in LT, OR.
+    destruct H2 as [h1 h2 h3 h4 h5 h6 h7 h8 h9].
+    assert (NR : forall j k u, In (j, k) (requests M) -> refs k = Some u -> u <> si /\ u <> ui).
+    { intros j k u Hj Hu. destruct (h5 j k u Hj Hu) as (_ & c & _). unfold qids in c. cbn in c. tauto. }
+    assert (KS : forall k, ~ In (si, k) (requests M)).
+    { intros k Hk. apply (in_key _ _ _) in Hk. tauto. }
+    assert (KU : forall k, ~ In (ui, k) (requests M)).
+    { intros k Hk. apply (in_key _ _ _) in Hk. tauto. }
+    constructor; auto.
+    + intros sid j Hs. destruct (h3 sid j Hs) as (u & ch & um' & Hu). exists u, ch, um'. right; right; auto.
+    + intros j u ch um' [E | [E | Hj]]; [inv E | inv E|]. eauto.
+    + intros j k u [E | [E | Hj]] Hu; [inv E; discriminate | inv E |].
+      * cbn in Hu. inv Hu. repeat split.
+        -- apply LT. rewrite in_app_iff. cbn [In]. auto.
+        -- tauto.
+        -- intros r Hr. apply (OR u); auto. rewrite in_app_iff. cbn [In]. auto.
+        -- intros k' [E | [E | Hk]]; [inv E; auto | inv E; congruence | exfalso; eapply KU; eauto].
+      * destruct (h5 j k u Hj Hu) as (a & c & d & e). destruct (NR j k u Hj Hu) as (n1 & n2). repeat split; auto.
+        -- intros Hq. apply c. unfold qids. cbn [flat_map]. apply in_app_iff; auto.
+        -- intros k' [E | [E | Hk]]; [inv E; congruence | inv E; congruence | auto].
+    + intros i1 k1 i2 k2 u [E1 | [E1 | I1]] [E2 | [E2 | I2]] R1 R2; try (inv E1; discriminate); try (inv E2; discriminate); auto.
+      * inv E1; inv E2; auto.
+      * inv E1. cbn in R1. inv R1. destruct (NR i2 k2 u I2 R2). congruence.
+      * inv E2. cbn in R2. inv R2. destruct (NR i1 k1 u I1 R1). congruence.
+      * eauto.
+    + intros j [E | [E | Hj]]; [inv E | inv E|].
+      * exists si, (KPendSub j h um). split; auto. right; left; auto.
+      * destruct (h7 j Hj) as (i2 & k2 & Hi2 & Hr). exists i2, k2. split; auto. right; right; auto.
+    + intros u j [E | [E | Hj]]; [inv E | inv E|]. eauto.
+    + intros u Hu. destruct (h9 u Hu) as (j & Hj). exists j. right; right; auto.
+Qed.
+
+Lemma InvC_front_batch M Q nx b ua lo hi h raw : InvC M (MBatch lo hi h raw :: Q) nx b ua ->
+  ~ In (lo, hi) (map fst (batches M)) /\ InvC (set_batches M (((lo, hi), h) :: batches M)) Q nx b ua.
+Proof.
+  intros (H1 & H2 & H3).
+  pose proof (ic_nd_rng _ _ _ _ _ H1) as N. unfold rngs_of, qrngs in N. cbn [flat_map msg_ranges app] in N.
+  apply nodup_middle in N. apply NoDup_cons_iff in N as (N1 & N2). rewrite in_app_iff in N1.
+  split; [tauto|]. split; [|split]; auto; cbn [requests set_batches subs batches].
+  - eapply IdsC_shrink; eauto; unfold ids_of, rngs_of, qids, qrngs; cbn [flat_map msg_ids msg_ranges app map fst].
+    + apply (ic_nd_ids _ _ _ _ _ H1).
+    + auto.
+    + constructor; auto. rewrite in_app_iff. tauto.
+    + intros j. cbn [In]. rewrite !in_app_iff. cbn [In]. tauto.
+    + intros y Hy. apply (ic_qok _ _ _ _ _ H1). right; auto.
+  - eapply TabC_q; [| |eauto]; unfold rngs_of, qids, qrngs; cbn [flat_map msg_ids msg_ranges app map fst]; auto.
+    intros j. cbn [In]. rewrite !in_app_iff. cbn [In]. tauto.
+Qed.
+
+(* ---------- answers ---------- *)
+Lemma TabC_kind_unique R S B Q nx b ua i k k' : NoDup (map fst R) -> TabC R S B Q nx b ua ->
+  In (i, k) R -> In (i, k') R -> k = k'.
+Proof. intros N _ H1 H2. eapply nodup_keys_fun; eauto. exact id_eqb_ok. Qed.
+
+(* a plain entry (no reference) goes away *)
+Lemma InvC_resp_call M Q nx b ua i w : InvC M Q nx b ua -> In (i, KCall w) (requests M) ->
+  InvC (set_requests M (aremove id_eqb i (requests M))) Q nx b (filter (fun u => negb (id_eqb i u)) ua).
+Proof.
+  intros (H1 & H2 & H3) Hi. pose proof (IdsC_nd_keys _ _ _ _ _ H1) as ND.
+  assert (U : forall k, In (i, k) (requests M) -> k = KCall w).
+  { intros k Hk. eapply nodup_keys_fun; eauto. exact id_eqb_ok. }
+  split; [|split]; auto; cbn [requests set_requests subs batches].
+  - eapply IdsC_rekey; eauto.
+    + apply keys_aremove_nodup; auto.
+    + intros j Hj. apply (keys_aremove id_eqb id_eqb_ok) in Hj. tauto.
+  - destruct H2 as [h1 h2 h3 h4 h5 h6 h7 h8 h9]. constructor; auto.
+    + intros sid j Hs. destruct (h3 sid j Hs) as (u & ch & um & Hu). exists u, ch, um.
+      apply (In_aremove id_eqb id_eqb_ok). split; auto. intros ->. apply U in Hu. discriminate.
+    + intros j u ch um Hj. apply (In_aremove id_eqb id_eqb_ok) in Hj as (Hj & _). eauto.
+    + intros j k u Hj Hu. apply (In_aremove id_eqb id_eqb_ok) in Hj as (Hj & _).
+      destruct (h5 j k u Hj Hu) as (a & c & d & e). repeat split; auto.
+      intros k' Hk. apply (In_aremove id_eqb id_eqb_ok) in Hk as (Hk & _). auto.
+    + intros i1 k1 i2 k2 u I1 I2. apply (In_aremove id_eqb id_eqb_ok) in I1 as (I1 & _).
+      apply (In_aremove id_eqb id_eqb_ok) in I2 as (I2 & _). eauto.
+    + intros j Hj. apply (In_aremove id_eqb id_eqb_ok) in Hj as (Hj & Hn).
+      destruct (h7 j Hj) as (i2 & k2 & Hi2 & Hr). exists i2, k2. split; auto.
+      apply (In_aremove id_eqb id_eqb_ok). split; auto. intros ->. apply U in Hi2. subst. discriminate.
+    + intros u j Hj. apply (In_aremove id_eqb id_eqb_ok) in Hj as (Hj & Hn).
+      apply filter_In. split; eauto. rewrite (eqb_neq id_eqb id_eqb_ok); auto.
+    + intros u Hu. apply filter_In in Hu as (Hu & Hn). destruct (h9 u Hu) as (j & Hj). exists j.
+      apply (In_aremove id_eqb id_eqb_ok). split; auto. intros ->. rewrite (eqb_rfl id_eqb id_eqb_ok) in Hn. discriminate.
+Qed.
+
+(* an entry goes away together with the id it refers to *)
+Lemma TabC_rm_ref R S B Q nx b ua i k0 u R' S' ua' :
+  TabC R S B Q nx b ua -> NoDup (map fst R) -> In (i, k0) R -> refs k0 = Some u ->
+  (forall j k, In (j, k) R' <-> In (j, k) R /\ j <> i /\ j <> u) ->
+  (forall sid j, In (sid, j) S' <-> In (sid, j) S /\ j <> i) -> NoDup (map fst S') -> NoDup (map snd S') ->
+  (forall x, In x ua' <-> In x ua /\ x <> i) ->
+  TabC R' S' B Q nx b ua'.
+Proof.
+  intros [h1 h2 h3 h4 h5 h6 h7 h8 h9] ND Hi Hr CR CS N1 N2 CU.
+  assert (U : forall k, In (i, k) R -> k = k0).
+  { intros k Hk. eapply nodup_keys_fun; eauto. exact id_eqb_ok. }
+  destruct (h5 i k0 u Hi Hr) as (_ & _ & _ & UK).
+  constructor; auto.
+  - intros sid j Hs. apply CS in Hs as (Hs & Hn). destruct (h3 sid j Hs) as (u' & ch & um & Hu). exists u', ch, um.
+    apply CR. repeat split; auto. intros ->. apply UK in Hu. discriminate.
+  - intros j u' ch um Hj. apply CR in Hj as (Hj & Hn & _). destruct (h4 _ _ _ _ Hj) as (sid & Hs). exists sid. apply CS. auto.
+  - intros j k u' Hj Hu. apply CR in Hj as (Hj & _). destruct (h5 j k u' Hj Hu) as (a & c & d & e). repeat split; auto.
+    intros k' Hk. apply CR in Hk as (Hk & _). auto.
+  - intros i1 k1 i2 k2 u' I1 I2. apply CR in I1 as (I1 & _). apply CR in I2 as (I2 & _). eauto.
+  - intros j Hj. apply CR in Hj as (Hj & Hn1 & Hn2). destruct (h7 j Hj) as (i2 & k2 & Hi2 & Hr2). exists i2, k2. split; auto.
+    apply CR. repeat split; auto.
+    + intros ->. apply U in Hi2. subst. congruence.
+    + intros ->. apply UK in Hi2. subst. discriminate.
+  - intros x j Hj. apply CR in Hj as (Hj & Hn & _). apply CU. split; eauto.
+  - intros x Hx. apply CU in Hx as (Hx & Hn). destruct (h9 x Hx) as (j & Hj). exists j. apply CR. repeat split; auto.
+    intros ->. apply UK in Hj. discriminate.
+Qed.
+
+Lemma release_char M u : NoDup (map fst (requests M)) -> (forall k, In (u, k) (requests M) -> k = KCall None) ->
+  subs (release_reserved u M) = subs M /\ batches (release_reserved u M) = batches M /\
+  nhandlers (release_reserved u M) = nhandlers M /\ NoDup (map fst (requests (release_reserved u M))) /\
+  forall j k, In (j, k) (requests (release_reserved u M)) <-> In (j, k) (requests M) /\ j <> u.
+Proof.
+  intros ND UK. unfold release_reserved, req_lookup.
+  destruct (alookup id_eqb u (requests M)) as [[[w|]| | |]|] eqn:E;
+    try (apply (alookup_In id_eqb id_eqb_ok) in E; apply UK in E; discriminate).
+  - repeat split; auto; cbn [requests set_requests].
+    + apply keys_aremove_nodup; auto.
+    + apply (In_aremove id_eqb id_eqb_ok).
+    + apply (In_aremove id_eqb id_eqb_ok).
+    + apply (In_aremove id_eqb id_eqb_ok); tauto.
+  - repeat split; auto; try tauto.
+    intros ->. apply (alookup_None id_eqb id_eqb_ok) in E. apply E. eapply in_key; eauto.
+Qed.
+
+Lemma not_unacked R S B Q nx b ua i k : TabC R S B Q nx b ua -> NoDup (map fst R) -> In (i, k) R ->
+  (forall j, k <> KUnsubP j) -> forall x, In x ua <-> In x ua /\ x <> i.
+Proof.
+  intros T ND Hi Hk x. split; [|tauto]. intros Hx. split; auto. intros ->.
+  destruct (tc_unacked _ _ _ _ _ _ _ T i Hx) as (j & Hj).
+  apply (Hk j). eapply nodup_keys_fun; eauto. exact id_eqb_ok.
+Qed.
+
+(* a refused / malformed / duplicate subscribe answer: the pending entry and its reserved id go *)
+Lemma InvC_resp_pend_err M Q nx b ua i u w um : InvC M Q nx b ua -> In (i, KPendSub u w um) (requests M) ->
+  InvC (release_reserved u (set_requests M (aremove id_eqb i (requests M)))) Q nx b ua.
+Proof.
+  intros (H1 & H2 & H3) Hi. pose proof (IdsC_nd_keys _ _ _ _ _ H1) as ND.
+  destruct (tc_res _ _ _ _ _ _ _ H2 _ _ _ Hi eq_refl) as (_ & _ & _ & UK).
+  set (M1 := set_requests M (aremove id_eqb i (requests M))).
+  destruct (release_char M1 u) as (E1 & E2 & E3 & N' & CR).
+  { cbn. apply keys_aremove_nodup; auto. }
+  { cbn. intros k Hk. apply (In_aremove id_eqb id_eqb_ok) in Hk as (Hk & _). auto. }
+  assert (CR' : forall j k, In (j, k) (requests (release_reserved u M1)) <-> In (j, k) (requests M) /\ j <> i /\ j <> u).
+  { intros j k. rewrite CR. cbn. rewrite (In_aremove id_eqb id_eqb_ok). tauto. }
+  split; [|split]; rewrite ?E1, ?E2, ?E3; auto.
+  - eapply IdsC_rekey; eauto. intros j Hj. left. apply in_map_iff in Hj as ([j' k] & <- & Hj). apply CR' in Hj as (Hj & _).
+    eapply in_key; eauto.
+  - eapply TabC_rm_ref with (k0 := KPendSub u w um); eauto.
+    + cbn. intros sid j. split; [|tauto]. intros Hs. split; auto. intros ->.
+      destruct (tc_subs_a _ _ _ _ _ _ _ H2 _ _ Hs) as (u' & ch & um' & Hu).
+      assert (X : KSub u' ch um' = KPendSub u w um) by (eapply nodup_keys_fun; eauto; exact id_eqb_ok). discriminate.
+    + apply (tc_nd_subs _ _ _ _ _ _ _ H2).
+    + apply (tc_nd_subv _ _ _ _ _ _ _ H2).
+    + eapply not_unacked; eauto. intros j; discriminate.
+Qed.
+
+(* the unsubscribe acknowledgement: the pending-unsubscribe entry and the tombstone go *)
+Lemma InvC_resp_unsubp M Q nx b ua i sub : InvC M Q nx b ua -> In (i, KUnsubP sub) (requests M) ->
+  let r1 := aremove id_eqb i (requests M) in
+  let r2 := match alookup id_eqb sub r1 with Some (KCall None) => aremove id_eqb sub r1 | _ => r1 end in
+  InvC (set_requests M r2) Q nx b (filter (fun u => negb (id_eqb i u)) ua).
+Proof.
+  intros (H1 & H2 & H3) Hi r1 r2. pose proof (IdsC_nd_keys _ _ _ _ _ H1) as ND.
+  destruct (tc_res _ _ _ _ _ _ _ H2 _ _ _ Hi eq_refl) as (_ & _ & _ & UK).
+  assert (N1 : NoDup (map fst r1)) by (apply keys_aremove_nodup; auto).
+  assert (CR : forall j k, In (j, k) r2 <-> In (j, k) (requests M) /\ j <> i /\ j <> sub).
+  { intros j k. unfold r2. destruct (alookup id_eqb sub r1) as [[[w|]| | |]|] eqn:E;
+      try (apply (alookup_In id_eqb id_eqb_ok) in E; apply (In_aremove id_eqb id_eqb_ok) in E as (E & _); apply UK in E; discriminate).
+    - rewrite (In_aremove id_eqb id_eqb_ok). unfold r1. rewrite (In_aremove id_eqb id_eqb_ok). tauto.
+    - unfold r1 in *. rewrite (In_aremove id_eqb id_eqb_ok). split; [|tauto]. intros (Hj & Hn). repeat split; auto.
+      intros ->. apply (alookup_None id_eqb id_eqb_ok) in E. apply E. apply (keys_aremove id_eqb id_eqb_ok). split; auto.
+      eapply in_key; eauto. }
+  assert (N2 : NoDup (map fst r2)).
+  { unfold r2. destruct (alookup id_eqb sub r1) as [[[w|]| | |]|]; auto. apply keys_aremove_nodup; auto. }
+  split; [|split]; auto; cbn [requests set_requests subs batches].
+  - eapply IdsC_rekey; eauto. intros j Hj. left. apply in_map_iff in Hj as ([j' k] & <- & Hj). apply CR in Hj as (Hj & _).
+    eapply in_key; eauto.
+  - eapply TabC_rm_ref with (k0 := KUnsubP sub); eauto.
+    + intros sid j. split; [|tauto]. intros Hs. split; auto. intros ->.
+      destruct (tc_subs_a _ _ _ _ _ _ _ H2 _ _ Hs) as (u' & ch & um' & Hu).
+      assert (X : KSub u' ch um' = KUnsubP sub) by (eapply nodup_keys_fun; eauto; exact id_eqb_ok). discriminate.
+    + apply (tc_nd_subs _ _ _ _ _ _ _ H2).
+    + apply (tc_nd_subv _ _ _ _ _ _ _ H2).
+    + intros x. rewrite filter_In. split.
+      * intros (Hx & Hn). split; auto. intros ->. rewrite (eqb_rfl id_eqb id_eqb_ok) in Hn. discriminate.
+      * intros (Hx & Hn). split; auto. rewrite (eqb_neq id_eqb id_eqb_ok); auto.
 Qed.
